@@ -603,6 +603,8 @@ def search_direction(ctx):
     # evaluation is the verdict
     if ctx.shared("noahs_ark_evaluated", lambda: noahs_ark(ctx)):
         missing.discard(("InBodyPhase.addFormattingElement", "activeFormattingElements"))
+    if ctx.shared("afe_append_evaluated", lambda: False):
+        missing.discard(("ActiveFormattingElements.append", "self"))
     if missing:
         raise AnalysisError("stack searches vanished: %s" % sorted(missing))
 
@@ -694,6 +696,29 @@ def noahs_ark(ctx) -> bool:
                 "marker count, and the earliest of three matching ones goes)" % (
                     ["M" if x is M else x for x in [("M" if y is M else y.tag) for y in scenarios[[s_[0] for s_ in scenarios].index(label)][1]]], got, want),
                 {"scenario": label}, detail={"scenario": label, "result": got})
+    # the tree builder's list class applies the clause once more when an element is appended to it
+    acls = next((c for c in ctx.repo.module("treebuilders/base.py").all_classes if c.name == "ActiveFormattingElements"), None)
+    af = acls.methods.get("append") if acls is not None else None
+    afe_run = af is not None
+    if af is not None:
+        for label, afe, want in scenarios:
+            lst = list(afe)
+            new = el("NEW")
+            key = "noahs-ark::list-append::%s" % label
+            try:
+                evl = ClassEval(ctx.ce, ctx.repo.module("treebuilders/base.py"), acls, {}, repo=ctx.repo)
+                evl.self_value = lst
+                evl.call("append", [new])
+            except AnalysisError as e:
+                r.idiom("C01.25", False, key, af.where, "ActiveFormattingElements.append is not evaluable (%s)" % str(e)[:90])
+                afe_run = False
+                continue
+            got = ["M" if x is M else x.tag for x in lst]
+            r.check("C01.25", got == want, key, af.where,
+                    "appending a <b> to the list of active formatting elements %s leaves %s; the standard leaves %s (only entries after the last "
+                    "marker count, and the earliest of three matching ones goes)" % (["M" if y is M else y.tag for y in afe], got, want),
+                    {"scenario": label}, detail={"scenario": label, "result": got})
+    ctx.shared("afe_append_evaluated", lambda: afe_run)
     return all_run
 
 
